@@ -206,6 +206,55 @@ int main(int argc, char **argv)
 			r = bintScanFrString(line, &end); puthex(r); printf(" %d\n", (int)(end - line));
 		}
 	}
+	else if (!strcmp(mode, "wrap")) {
+		/* the runtime wrapper layer of foam_i.c (what compiled programs and the interpreter call) */
+		for (i = 0; i < nV; i++) {
+			BInt a = V[i];
+			int n; U16 *d; U16 pl[300]; union { double f; unsigned long u; } cv;
+			if (i % nshards != shard) continue;
+			sprintf(where, "wrap1 %s", Vdesc[i]);
+			printf("U %d %ld %d %d %d %d", i, (long) fiBIntLength((FiBInt) a), !!fiBIntIsSingle((FiBInt) a),
+			       !!fiBIntIsZero((FiBInt) a), !!fiBIntIsNeg((FiBInt) a), !!fiBIntIsPos((FiBInt) a));
+			puthex((BInt) fiBIntNegate((FiBInt) a));
+			/* literal construction used by generated C: places -> value (with two spare zero places, as genc emits) */
+			bintToPlacevS(a, &n, &d);
+			if (n < 290) {
+				int k; for (k = 0; k < n; k++) pl[k] = d[k]; pl[n] = 0; pl[n + 1] = 0;
+				puthex((BInt) fiBIntFrPlacev(bintIsNeg(a), (unsigned long) n, pl));
+			} else printf(" -");
+			bintReleasePlacevS(d);
+			printf(" -");
+			if (bintLength(a) <= 1100) { cv.f = (double) fiBIntToDFlo((FiBInt) a); printf(" %lx", cv.u); } else printf(" -");
+			printf(" %s\n", fiBIntToString((FiBInt) a));
+			for (j = 0; j < nV; j++) {
+				BInt b = V[j], c = V[(3 * i + 5 * j + 1) % nV];
+				FiBInt q = 0, r = 0;
+				sprintf(where, "wrap2 %s | %s", Vdesc[i], Vdesc[j]);
+				printf("%d %d", i, j);
+				puthex((BInt) fiBIntPlus((FiBInt) a, (FiBInt) b)); puthex((BInt) fiBIntMinus((FiBInt) a, (FiBInt) b));
+				puthex((BInt) fiBIntTimes((FiBInt) a, (FiBInt) b));
+				puthex((BInt) fiBIntTimesPlus((FiBInt) a, (FiBInt) b, (FiBInt) c));
+				if (!bintIsZero(b)) { fiBIntDivide((FiBInt) a, (FiBInt) b, &q, &r); puthex((BInt) q); puthex((BInt) r); }
+				else printf(" - -");
+				printf(" %d %d %d %d\n", !!fiBIntEQ((FiBInt) a, (FiBInt) b), !!fiBIntNE((FiBInt) a, (FiBInt) b),
+				       !!fiBIntLT((FiBInt) a, (FiBInt) b), !!fiBIntLE((FiBInt) a, (FiBInt) b));
+			}
+		}
+	}
+	else if (!strcmp(mode, "wshift")) {
+		/* every shift count 0..130 (and the digit multiples up to 400) through the runtime wrappers */
+		for (i = 0; i < nV; i++) {
+			int n;
+			if (i % nshards != shard) continue;
+			for (n = 0; n <= 400; n = (n < 130 ? n + 1 : n + 15)) {
+				BInt a = V[i];
+				sprintf(where, "wshift %s by %d", Vdesc[i], n);
+				printf("%d %d", i, n);
+				puthex((BInt) fiBIntShiftUp((FiBInt) a, (FiSInt) n)); puthex((BInt) fiBIntShiftDn((FiBInt) a, (FiSInt) n));
+				printf(" %d\n", !!fiBIntBit((FiBInt) a, (FiSInt) n));
+			}
+		}
+	}
 	else if (!strcmp(mode, "dword")) {
 		static const ULong W[] = { 0UL, 1UL, 2UL, 3UL, 0x7FFFFFFFUL, 0x80000000UL, 0xFFFFFFFFUL, 0x100000000UL, 0x100000001UL,
 			0x7FFFFFFFFFFFFFFFUL, 0x8000000000000000UL, 0x8000000000000001UL, 0xFFFFFFFFFFFFFFFEUL, 0xFFFFFFFFFFFFFFFFUL,
